@@ -243,7 +243,28 @@ pub fn run_case(tape: &mut Tape, _tier: Tier, _p: &CaseParams) -> CaseOutcome {
           } else {
             sha256_hex(bytes)
           };
-          world.lockfile.remote.entry(t).or_insert(sum);
+          world.lockfile.remote.entry(t.clone()).or_insert(sum);
+        }
+        // the asset has moved: the cache still holds an outdated copy (fails
+        // verification) and the cache-bypassing retry is answered with a
+        // redirect, which a checksummed url must not follow
+        if tape.draw(Stream::World, 4) == 3 && !world.roots.contains(&t) {
+          if let Some(Entry::Module { bytes, headers, .. }) = world.remote.get(&t).cloned() {
+            let others: Vec<String> =
+              remotes.iter().filter(|r| **r != t).cloned().collect();
+            if !others.is_empty() {
+              let to = others[tape.draw(Stream::World, others.len() as u32) as usize].clone();
+              let mut old = bytes.clone();
+              old.extend_from_slice(b"\n// outdated cached copy\n");
+              world.lockfile.remote.insert(t.clone(), sha256_hex(&bytes));
+              world.cache.insert(
+                t.clone(),
+                Some(Entry::Module { bytes: old, headers, final_url: None }),
+              );
+              world.remote.insert(t.clone(), Entry::Redirect(to));
+              out.count("probe.asset_moved_stale_cache_then_redirect", 1);
+            }
+          }
         }
       }
       world.roots.push(d.url.clone());
@@ -648,7 +669,12 @@ pub fn run_case(tape: &mut Tape, _tier: Tier, _p: &CaseParams) -> CaseOutcome {
         // resolved to this specifier stored over it; never a module
         Some(SlotShape::Err { .. }) => {}
         Some(SlotShape::Module(_)) if other_verified => {}
-        Some(SlotShape::Module(m)) if m.kind == "external" => {}
+        // an external entry stands for an asset whose cached copy was
+        // verified, or for a specifier the loader declared external; it is
+        // not a way to admit a request that failed verification
+        Some(SlotShape::Module(m))
+          if m.kind == "external"
+            && r1.loads.iter().any(|l| l.id.url == *u && l.answer == "external") => {}
         other => {
           out.violation(
             "C05",
